@@ -9,7 +9,12 @@ transcript with the same workload run alone on one thread.  Two further families
 comparison, repr/json cycle guards, recursion, interning, type ids on shared frozen values; the sequential run is taken
 before AND after the concurrent phase) and churn rounds (producers build hundreds of thousands of tiny frozen heaps back
 to back - consecutive heaps share a reference-counted chunk - consumers on other threads check and drop them: the
-protocol of C20_rc_inv at a high rate).  The heap-level history of a sample of rounds is replayed on the Coq model
+protocol of C20_rc_inv at a high rate).  A fourth family, first-binder rounds (gen_binder_round, harness run_fresh_round): a freshly
+frozen library holds enum types / record types / typing values / closures ANONYMOUSLY in containers; binder threads assign them to top-level
+names of their own (export_as, a different name per thread), reader threads only observe; every workload alone on a FRESH copy of the
+library vs repeated concurrent phases on further fresh copies (racing, binders first, readers first) - the search for a frozen shared value
+that is written after freeze on first use with thread-dependent content (Coq: C20_once_thread_independent_unobservable /
+C20_once_thread_dependent_observable name the condition).  The heap-level history of a sample of rounds is replayed on the Coq model
 (Conc/Cases.v): every step enabled, quiescent at the end, every read live."""
 import json
 import os
@@ -410,6 +415,208 @@ def gen_state_round(rng, rid, nthreads, nops):
 
 
 # ---------------------------------------------------------------------------------------------------------------
+# "binder" rounds (harness: run_fresh_round): first-binder races on frozen values whose identity is lazily named.
+# The evaluator calls `export_as(name)` on EVERY top-level assignment, also when the value is a frozen value loaded from
+# another module.  Enum types and record types take their name (and with it: repr of their values, `.type`, usability as
+# a type annotation, the type names in error messages) from the first `export_as`; once frozen they must ignore it.  The
+# library below holds values of every kind that implements `export_as` or carries lazily computed type information
+# ANONYMOUSLY (inside lists / tuples / dicts / structs / closures / function results, never bound to a global of the
+# library), next to named controls.  "Binder" threads bind them to top-level names of their own modules (every thread
+# and op a DIFFERENT name) and build values / annotations / record types from them; "reader" threads only observe.
+# The alone transcript of every workload is taken on a FRESH copy of the library (nobody has touched it), the
+# concurrent phase runs several times on further fresh copies: all threads racing, binders first, readers first.
+
+BIND_LIB = '''
+def _f(x, y = 2):
+    return [x, y]
+def _mk(tag):
+    E = enum("A" + tag, "B")
+    R = record(e=int, n=field(int, 3))
+    def f(x):
+        return E(x)
+    def g(x):
+        return R(e=x, n=4)
+    def t():
+        return [E, R]
+    return [E, R, f, g, t, lambda: E, lambda: E("B")]
+b_types = [enum("RED", "GREEN"), record(a=int, b=field(str, "x%(A)d"))]
+b_ns = struct(E=enum("x", "y%(A)d"), R=record(v=int), T=int | str, L=list[int])
+b_map = {"e": enum("m%(S)s", "n"), "r": record(w=str, u=field(list, [])), "n": {"deep": (enum("p", "q"), record(d=int))}}
+b_tup = (enum("t1", "t2", "t3"), record(z=int))
+b_inner = _mk("%(S)s")
+b_vals = [b_types[0]("RED"), b_inner[0]("B"), b_ns.E("x"), b_tup[0]("t2"), b_map["e"]("n"), b_map["n"]["deep"][0]("q")]
+b_tys = (int | str, list[int], typing.Callable, dict[str, typing.Any], typing.Callable[[int], str], tuple[int, ...], typing.Iterable,
+         eval_type(int), None | list[str], typing.Any)
+b_fns = [partial(_f, 1), lambda y: [y, b_types[0]("GREEN")], _f, b_inner[2], b_inner[5]]
+b_Named = enum("n1", "n2")
+b_NamedR = record(q=int, s=field(str, "%(S)s"))
+b_alias = [b_Named, b_NamedR, b_Named("n2"), b_NamedR(q=%(A)d)]
+'''
+BIND_NAMES = ["b_types", "b_ns", "b_map", "b_tup", "b_inner", "b_vals", "b_tys", "b_fns", "b_Named", "b_NamedR", "b_alias"]
+
+# (path expression, a valid element)       `B_` = import prefix
+BIND_ENUMS = [('B_types[0]', "RED"), ('B_ns.E', "x"), ('B_map["e"]', "n"), ('B_map["n"]["deep"][0]', "p"), ('B_tup[0]', "t1"),
+              ('B_inner[0]', "B"), ('B_inner[4]()[0]', "B"), ('B_inner[5]()', "B"), ('B_alias[0]', "n1")]
+# (path expression, valid constructor arguments)
+BIND_RECORDS = [('B_types[1]', "a=1"), ('B_ns.R', "v=2"), ('B_map["r"]', 'w="s"'), ('B_map["n"]["deep"][1]', "d=3"), ('B_tup[1]', "z=4"),
+                ('B_inner[1]', "e=5"), ('B_inner[4]()[1]', "e=6, n=7"), ('B_alias[1]', "q=8")]
+BIND_TYPINGS = ['B_tys[%d]' % i for i in range(10)] + ['B_ns.T', 'B_ns.L']
+
+# observations that never bind (readers, and binders between their bindings). P = path, EL = element / KW = arguments.
+# (safe, risky): a risky observation may end in an error (also alone) and then closes its op.
+OBS_ENUM = (
+    ['emit(repr(P("EL")))', 'emit(str(P))', 'emit(repr(P))', 'emit(P.type)', 'emit([type(P), type(P("EL"))])', 'emit(dir(P))',
+     'emit(dir(P("EL")))', 'emit(json.encode(P("EL")))', 'emit([v for v in P])', 'emit(P.values())', 'emit([len(P), P[0], P("EL").index])',
+     'emit("%s|%r|%s" % (P, P("EL"), P("EL")))', 'emit({P("EL"): 1})', 'emit([P("EL") == P("EL"), P == P, P("EL") in B_vals])',
+     'emit(str(B_vals))', 'emit([repr(v) for v in B_vals] + [v.value for v in B_vals])', 'emit(repr(B_inner[6]()))',
+     'emit(repr(B_fns[1](0)))', 'emit(str(struct(t=P, v=P("EL"))))', 'emit(repr(B_alias))'],
+    ['emit(isinstance(P("EL"), P))', 'emit(isinstance(1, P))', 'emit(eval_type(P))', 'emit(P("no-such-element"))', 'emit(P(1))',
+     'emit(eval_type(P).matches(P("EL")))', 'emit(P("EL") < P("EL"))', 'emit(P("EL").nope)', 'emit(P.nope)', 'emit(record(f=P))',
+     'emit(P("EL") + 1)'])
+OBS_RECORD = (
+    ['emit(repr(P))', 'emit(str(P))', 'emit(P.type)', 'emit(type(P))', 'emit(dir(P))', 'emit("%s|%r" % (P, P))', 'emit(P == P)',
+     'emit(str(struct(t=P)))', 'emit(repr(B_alias))', 'emit(repr(B_ns)[:200])', 'emit(repr(B_map))', 'emit(repr(B_tup) + repr(B_types))'],
+    ['emit(repr(P(KW)))', 'emit(json.encode(P(KW)))', 'emit(isinstance(1, P))', 'emit(eval_type(P))', 'emit(P(no_such_field=1))', 'emit(P())',
+     'emit(dir(P(KW)))', 'emit(P(KW) == P(KW))', 'emit(record(f=P))', 'emit(repr(B_inner[3](1)))', 'emit(P.nope)', 'emit(str(P(KW)))'])
+OBS_TYPING = (
+    ['emit(repr(P))', 'emit(str(P))', 'emit(type(P))', 'emit("%s|%r" % (P, P))', 'emit(repr(B_tys))', 'emit(P == P)'],
+    ['emit([isinstance(1, P), isinstance([1], P), isinstance(None, P), isinstance(B_fns[2], P)])', 'emit(eval_type(P))',
+     'emit([eval_type(P).matches(1), eval_type(P).matches("s"), eval_type(P).matches([])])', 'emit(dir(P))', 'emit(record(f=P))',
+     'emit(record(f=P)(f=(1, 2)))', 'emit(P.type)', 'emit(P | None)'])
+OBS_FUNCS = (
+    ['emit(repr(B_fns))', 'emit([str(f) for f in B_fns] + [type(f) for f in B_fns])', 'emit(B_fns[0](5))', 'emit(B_fns[2](1, y=3))',
+     'emit(repr(B_fns[3]("B")))', 'emit(repr(B_fns[4]()))', 'emit(repr(B_inner))', 'emit([repr(B_inner[2]("B")), str(B_inner[4]())])'],
+    ['emit(B_fns[3]("no-such"))', 'emit(B_fns[0](1, 2, 3))', 'emit(B_inner[3]("s"))', 'emit(B_fns[2]())'])
+
+# bindings: N = the (unique) top-level name
+BIND_ENUM = [
+    'N = P\nemit(repr(N("EL")))\nemit([str(N), N.type, type(N("EL")), repr(P("EL"))])',
+    'N = P\nN_again = N\nemit([repr(N_again("EL")), repr(N), N_again.type])',
+    'N, N_other = P, 1\nemit(repr(N("EL")))',
+    '[N] = [P]\nemit([repr(N("EL")), N.type])',
+    'N_v = P("EL")\nN = P\nemit([repr(N_v), repr(N("EL")), N_v == N("EL")])',
+    'N = P\nemit(repr(B_vals))\nemit(repr(N("EL")))',
+]
+BIND_ENUM_RISKY = [
+    'N = P\nemit(N.type)\ndef f_N(x: N):\n    return x\nemit(repr(f_N(N("EL"))))\nemit(f_N(1))',
+    'N = P\nemit(N.type)\nR_N = record(e=N, k=field(int, 1))\nemit(repr(R_N(e=N("EL"))))\nemit(R_N(e="EL"))',
+    'N = P\nemit(repr(N("EL")))\ndef f_N(x) -> N:\n    return x\nemit(f_N("EL"))',
+    'N = P\nemit(isinstance(N("EL"), N))\nemit(eval_type(N).matches(N("EL")))',
+    'N = P\nemit(repr(N("EL")))\nemit(N("no-such-element"))',
+    'N = P\nN_l = [N]\ndef f_N(x: list[N] | None):\n    return x\nemit(repr(f_N([N("EL")])))\nemit(f_N([1]))',
+]
+BIND_RECORD = [
+    'N = P\nemit([repr(N), str(N), N.type])',
+    'N = P\nN_again = N\nemit([repr(N_again), N_again.type, type(N)])',
+    '(N, N_other) = (P, 2)\nemit(repr(N))',
+]
+BIND_RECORD_RISKY = [
+    'N = P\nemit(N.type)\nemit(repr(N(KW)))\nemit(json.encode(N(KW)))',
+    'N = P\nemit(N.type)\ndef f_N(x: N):\n    return x\nemit(repr(f_N(N(KW))))\nemit(f_N(1))',
+    'N = P\nemit(repr(N))\nemit(N(no_such_field=1))',
+    'N = P\nemit(repr(N))\nR_N = record(inner=N)\nemit(repr(R_N(inner=N(KW))))\nemit(R_N(inner=1))',
+    'N = P\nemit(N.type)\nemit(isinstance(N(KW), N))',
+]
+BIND_TYPING_RISKY = [
+    'N = P\nemit(repr(N))\ndef f_N(x: N):\n    return x\nemit(f_N(1))\nemit(f_N(None))\nemit(f_N([1]))\nemit(f_N(("s", 1.5)))',
+    'N = P\nR_N = record(f=N)\nemit(repr(R_N))\nemit(repr(R_N(f=1)))\nemit(R_N(f=(None, None)))',
+    'N = P\nemit(repr(N))\ndef f_N(x) -> N:\n    return x\nemit(f_N([1]))\nemit(f_N({"a": "b"}))\nemit(f_N(1.5))',
+]
+BIND_FUNC = ['N = B_fns[%(I)d]\nemit([repr(N), str(N), type(N)])', 'N = B_inner[%(I)d]\nemit(repr(N))\nemit(repr(B_inner))',
+             'N = B_vals[%(I)d]\nemit([repr(N), N.value, N.index, type(N)])']
+
+
+def bind_sub(sn, path, arg, name=None):
+    sn = sn.replace("EL", arg).replace("KW", arg)
+    sn = re.sub(r"\bP\b", lambda m: path, sn)
+    if name is not None:
+        sn = re.sub(r"(?<![A-Za-z0-9])N(?![A-Za-z0-9])", name, sn)
+    return sn
+
+
+def gen_binder_round(rng, rid, nthreads):
+    prefix = "B_"
+    lib = BIND_LIB % {"A": rng.randint(1, 999), "S": "".join(rng.choice("abcxyz") for _ in range(rng.randint(1, 6)))}
+    load = 'load("lib0.star", %s)\n' % ", ".join('%s%s="%s"' % (prefix, n, n) for n in BIND_NAMES)
+    # the values this round fights about: a few paths used by (almost) every thread
+    kinds = ["enum", "enum", "enum", "record", "record", "typing", "mixed"]
+    focus_kind = rng.choice(kinds)
+    pools = {"enum": BIND_ENUMS, "record": BIND_RECORDS, "typing": [(p, "") for p in BIND_TYPINGS]}
+    focus = []
+    for _ in range(rng.randint(1, 3)):
+        k = focus_kind if focus_kind != "mixed" else rng.choice(["enum", "record", "typing"])
+        focus.append((k,) + rng.choice(pools[k]))
+    # roles: at least one binder; readers unless this is an all-binders round (different names racing)
+    allbind = rng.random() < 0.25
+    roles = ["binder", "reader"] if not allbind else ["binder", "binder"]
+    while len(roles) < nthreads:
+        roles.append("binder" if allbind or rng.random() < 0.4 else "reader")
+    if rng.random() < 0.5:
+        roles[0], roles[1] = roles[1], roles[0]
+    kcount = {}
+
+    def pick():
+        if rng.random() < 0.8:
+            return rng.choice(focus)
+        k = rng.choice(["enum", "record", "typing"])
+        return (k,) + rng.choice(pools[k])
+
+    def observation(risky):
+        r = rng.random()
+        if r < 0.12:
+            return rng.choice(OBS_FUNCS[1 if risky else 0])
+        k, path, arg = pick()
+        tab = {"enum": OBS_ENUM, "record": OBS_RECORD, "typing": OBS_TYPING}[k]
+        return bind_sub(rng.choice(tab[1 if risky else 0]), path, arg)
+
+    threads = []
+    for t in range(nthreads):
+        ops = []
+        for o in range(rng.randint(2, 5)):
+            parts = []
+            if roles[t] == "binder" and (o == 0 or rng.random() < 0.8):
+                k, path, arg = pick()
+                name = "%s_t%d_o%d" % (rng.choice(["Mine", "Color", "Kind", "T", "my_type", "Rec"]), t, o)
+                risky = rng.random() < 0.6
+                if rng.random() < 0.1:
+                    sn = rng.choice(BIND_FUNC) % {"I": rng.randint(0, 4)}
+                    risky = False
+                elif k == "enum":
+                    sn = rng.choice(BIND_ENUM_RISKY if risky else BIND_ENUM)
+                elif k == "record":
+                    sn = rng.choice(BIND_RECORD_RISKY if risky else BIND_RECORD)
+                else:
+                    sn, risky = rng.choice(BIND_TYPING_RISKY), True
+                # observations BEFORE the binding (what the thread reads depends on who bound first), the binding, and - when
+                # the binding snippet cannot fail - observations after it
+                for _ in range(rng.randint(0, 2)):
+                    parts.append(observation(False))
+                parts.append(bind_sub(sn, path, arg, name))
+                kcount["binder:bind-" + k] = kcount.get("binder:bind-" + k, 0) + 1
+                if not risky:
+                    for _ in range(rng.randint(0, 2)):
+                        parts.append(observation(False))
+                    if rng.random() < 0.4:
+                        parts.append(observation(True))
+            else:
+                for _ in range(rng.randint(1, 4)):
+                    parts.append(observation(False))
+                if rng.random() < 0.6:
+                    parts.append(observation(True))
+                kcount["binder:observe"] = kcount.get("binder:observe", 0) + len(parts)
+            src = load + re.sub(r"\bB_", prefix + "b_", "\n".join(parts)) + "\n"
+            ops.append({"op": "eval", "src": src, "gc": rng.choice([0, 0, 0, 1])})
+        if rng.random() < 0.3:
+            ops.append({"op": "handle", "mod": "lib0.star", "sym": rng.choice(["b_types", "b_vals", "b_ns", "b_alias", "b_fns", "b_tup"]),
+                        "send": rng.random() < 0.5})
+        threads.append({"ops": ops, "role": roles[t], "group": 0 if roles[t] == "binder" else 1})
+    return {"id": rid, "seed": rng.getrandbits(48) | 1, "libs": [{"name": "lib0.star", "src": lib}], "threads": threads,
+            "fresh_libs": True, "repeat": 6, "stagger_us": rng.choice([300, 2000, 5000]), "seq_first": rng.random() < 0.5, "recheck": True,
+            "share_globals": rng.random() < 0.6, "stack_mb": 16, "jitter_us": rng.choice([1, 20, 200]), "first_use": False,
+            "family": "binder", "focus": [f[1] for f in focus], "_kinds": kcount, "_gen": {}}
+
+
+# ---------------------------------------------------------------------------------------------------------------
 # "churn" rounds (harness: run_churn): producers build tiny frozen heaps / modules back to back, consumers on other threads check
 # the value against the expected encoding and drop the heap there.
 
@@ -532,6 +739,22 @@ def verdict(case, r, rc):
         seqonly = all(x.startswith("(sequential)") for x in r["xfail"])
         return ("cross-thread-read-differs" + (":sequential" if seqonly else ""),
                 "round %s: a value read again through a module/handle before its drop differs: %s" % (case["id"], r["xfail"][0][:400]))
+    if not r.get("equal", False) and case.get("family") == "binder":
+        d = r.get("diff") or {}
+        th = case["threads"][d.get("thread", 0)]
+        op = th["ops"][min(d.get("op", 0), len(th["ops"]) - 1)]
+        mode = {0: "all threads racing from the barrier", 1: "binders started first", 2: "readers started first"}.get(d.get("mode"), "?")
+        return ("first-binder:transcript-differs:%s" % th.get("role", "?"),
+                "round %s (%d threads sharing a freshly frozen library that holds anonymous enum/record types and typing values; roles %s; "
+                "values in focus %s): the %s thread %s, op %s, concurrent repetition %s (%s): transcript item %s = %s, but the same workload "
+                "run ALONE on a fresh copy of the library gives %s; %s (thread, repetition) transcripts of this round differ. What a thread "
+                "observes on a shared frozen value depends on which thread used/bound it first: the value is written after freeze. Source of "
+                "the op: %s"
+                % (case["id"], nthr, "".join(t.get("role", "?")[0] for t in case["threads"]), case.get("focus"), th.get("role"), d.get("thread"),
+                   d.get("op"), d.get("rep"), mode, d.get("item"), d.get("concurrent"), d.get("sequential"), r.get("threads_differing"),
+                   json.dumps(op.get("src", op))[-400:])
+                + (" | the workloads run alone again AFTER the concurrent phase differ too: %s" % json.dumps(r["rediff"])[:300]
+                   if r.get("rediff") else ""))
     if not r.get("equal", False):
         d = r.get("diff") or {}
         op = case["threads"][d.get("thread", 0)]["ops"][d.get("op", 0)]
@@ -577,11 +800,16 @@ def minimise(ctx, case, budget=5):
         cands = []
         if len(best["threads"]) > 2:
             c = dict(best)
-            c["threads"] = best["threads"][:max(2, len(best["threads"]) // 2)]
+            ths = best["threads"]
+            if best.get("family") == "binder":
+                # keep both roles: binders and readers alternately
+                bs, rs = [t for t in ths if t.get("role") == "binder"], [t for t in ths if t.get("role") != "binder"]
+                ths = [t for pair in zip(bs, rs) for t in pair] + bs[len(rs):] + rs[len(bs):]
+            c["threads"] = ths[:max(2, len(ths) // 2)]
             cands.append(c)
         if max(len(t["ops"]) for t in best["threads"]) > 2:
             c = dict(best)
-            c["threads"] = [{"ops": t["ops"][:max(2, (len(t["ops"]) + 1) // 2)]} for t in best["threads"]]
+            c["threads"] = [dict(t, ops=t["ops"][:max(2, (len(t["ops"]) + 1) // 2)]) for t in best["threads"]]
             cands.append(c)
         progressed = False
         for c in cands:
@@ -650,8 +878,12 @@ def run_with_second_pass(ctx, cases):
 CHURN_WORKERS = 5     # churn rounds run a few at a time (each has up to 8 busy threads)
 
 
-def evaluate(ctx, cases, first_use_cases, coq_sample=24, do_minimise=True, state_cases=(), churn_cases=()):
-    state_cases, churn_cases = list(state_cases), list(churn_cases)
+def evaluate(ctx, cases, first_use_cases, coq_sample=24, do_minimise=True, state_cases=(), churn_cases=(), binder_cases=()):
+    state_cases, churn_cases, binder_cases = list(state_cases), list(churn_cases), list(binder_cases)
+    # the binder rounds first, each in a fresh process (nothing has named / typed / cached anything yet)
+    bouts = run_each_alone(ctx, binder_cases, timeout=300, workers=8)
+    ctx.log("ran %d first-binder rounds (anonymous enum/record/typing values of a freshly frozen library bound to per-thread names by some "
+            "threads, observed by others; alone transcripts on fresh copies), each in a fresh process" % len(binder_cases))
     res, rcs, nagain = run_with_second_pass(ctx, cases)
     ctx.log("ran %d rounds in %d child processes (%d re-run after their process ended early)" % (len(cases), min(sv.NPROC, max(1, len(cases))), nagain))
     fres, frcs = run_rounds(ctx, first_use_cases, one_per_process=True)
@@ -664,10 +896,11 @@ def evaluate(ctx, cases, first_use_cases, coq_sample=24, do_minimise=True, state
     ctx.log("ran %d churn rounds (tiny frozen heaps built back to back, read and dropped on other threads), each in a fresh process"
             % len(churn_cases))
     allc = (list(zip(cases, res, rcs)) + list(zip(first_use_cases, fres, frcs)) + list(zip(state_cases, sres, srcs))
-            + [(c, r, rc) for c, (rc, r) in zip(churn_cases, couts)])
+            + [(c, r, rc) for c, (rc, r) in zip(churn_cases, couts)] + [(c, r, rc) for c, (rc, r) in zip(binder_cases, bouts)])
     failures, st = [], {"rounds": 0, "skipped_setup": 0, "not_run": 0, "threads": {}, "ops": 0, "items": 0, "xdrops": 0,
                         "first_use": 0, "nontrivial": 0, "events": 0, "kinds": {}, "state_rounds": 0, "state_ops": 0, "state_items": 0,
-                        "churn_rounds": 0, "churn_heaps": 0, "churn_styles": {}}
+                        "churn_rounds": 0, "churn_heaps": 0, "churn_styles": {},
+                        "binder_rounds": 0, "binder_ops": 0, "binder_items": 0, "binder_reps": 0}
     seen = {}
     good = []
     for case, r, rc in allc:
@@ -703,6 +936,14 @@ def evaluate(ctx, cases, first_use_cases, coq_sample=24, do_minimise=True, state
                 st["churn_heaps"] += r["ops"]
                 st["churn_styles"][case["style"]] = st["churn_styles"].get(case["style"], 0) + 1
                 if n >= 3 and r["ops"] >= 10000:
+                    st["nontrivial"] += 1
+            elif case.get("family") == "binder":
+                st["binder_rounds"] += 1
+                st["binder_ops"] += r["ops"]
+                st["binder_items"] += r.get("items", 0)
+                st["binder_reps"] += r.get("reps", 0)
+                roles = set(t.get("role") for t in case["threads"])
+                if n >= 3 and len(roles) == 2:
                     st["nontrivial"] += 1
             elif case.get("family") == "state":
                 st["state_rounds"] += 1
@@ -762,9 +1003,15 @@ def evaluate(ctx, cases, first_use_cases, coq_sample=24, do_minimise=True, state
 
 
 def split_families(cases):
-    """(ordinary rounds, state rounds, churn rounds) of a list of rounds (the corpus has all three)."""
-    return ([c for c in cases if c.get("kind") != "churn" and c.get("family") != "state"],
-            [c for c in cases if c.get("family") == "state"], [c for c in cases if c.get("kind") == "churn"])
+    """(ordinary rounds, state rounds, churn rounds, binder rounds) of a list of rounds (the corpus has all four)."""
+    return ([c for c in cases if c.get("kind") != "churn" and c.get("family") not in ("state", "binder")],
+            [c for c in cases if c.get("family") == "state"], [c for c in cases if c.get("kind") == "churn"],
+            [c for c in cases if c.get("family") == "binder"])
+
+
+def make_binders(ctx, n):
+    rng = ctx.rng
+    return [gen_binder_round(rng, "b%d" % i, rng.choice([2, 2, 3, 4, 4, 5, 6, 8, 8])) for i in range(n)]
 
 
 def make_extra(ctx, nstate, nchurn, churn_iters, churn_ms, max_threads):
@@ -794,19 +1041,22 @@ def make_cases(ctx, nrounds, nfirst, max_threads, nops):
 def correspond(ctx):
     cases, first, corpus_ids = make_cases(ctx, ctx.n(160, 3000), ctx.n(16, 320), ctx.n(8, 16), ctx.n(8, 16))
     state, churn = make_extra(ctx, ctx.n(24, 400), ctx.n(12, 80), ctx.n(150000, 600000), ctx.n(8000, 30000), ctx.n(12, 16))
-    cases, state0, churn0 = split_families(cases)
+    cases, state0, churn0, binder0 = split_families(cases)
     state, churn = state0 + state, churn0 + churn
-    ctx.log("generated %d rounds + %d first-use rounds (fresh process each) + %d per-thread-state rounds + %d churn rounds"
-            % (len(cases), len(first), len(state), len(churn)))
-    failures, st = evaluate(ctx, cases, first, coq_sample=ctx.n(6, 96), state_cases=state, churn_cases=churn)
+    binders = binder0 + make_binders(ctx, ctx.n(40, 600))
+    ctx.log("generated %d rounds + %d first-use rounds (fresh process each) + %d per-thread-state rounds + %d churn rounds + %d "
+            "first-binder rounds" % (len(cases), len(first), len(state), len(churn), len(binders)))
+    failures, st = evaluate(ctx, cases, first, coq_sample=ctx.n(6, 96), state_cases=state, churn_cases=churn, binder_cases=binders)
     ctx.log("rounds=%d threads/round=%s ops=%d transcript items=%d cross-thread drops=%d first-use races=%d nontrivial=%d "
             "skipped(setup)=%d too-expensive=%d not-run=%d coq traces=%d (%d steps, %d churn prefixes) failures=%d | state rounds=%d (ops=%d "
-            "items=%d) | churn rounds=%d heaps built+checked+dropped elsewhere=%d styles=%s"
+            "items=%d) | churn rounds=%d heaps built+checked+dropped elsewhere=%d styles=%s | first-binder rounds=%d (concurrent "
+            "repetitions=%d ops=%d items=%d)"
             % (st["rounds"], dict(sorted(st["threads"].items())), st["ops"], st["items"], st["xdrops"], st["first_use"], st["nontrivial"],
                st["skipped_setup"], st.get("slow_skipped", 0), st["not_run"], st["coq_traces"], st["coq_steps"], st.get("coq_churn_traces", 0),
-               len(failures), st["state_rounds"], st["state_ops"], st["state_items"], st["churn_rounds"], st["churn_heaps"], st["churn_styles"]))
+               len(failures), st["state_rounds"], st["state_ops"], st["state_items"], st["churn_rounds"], st["churn_heaps"], st["churn_styles"],
+               st["binder_rounds"], st["binder_reps"], st["binder_ops"], st["binder_items"]))
     broken = []
-    total = len(cases) + len(first) + len(state) + len(churn)
+    total = len(cases) + len(first) + len(state) + len(churn) + len(binders)
     if st["skipped_setup"] > total // 4 or st["rounds"] < total // 2:
         broken.append(("stress-harness", "only %d of %d rounds ran (%d setup errors: %s)" % (st["rounds"], total, st["skipped_setup"],
                                                                                            st.get("setup_errors", [])[:2])))
@@ -822,8 +1072,13 @@ def correspond(ctx):
                 "recursion near the call-stack limit, interning/hash caches, record/enum type ids; sequential before AND after the concurrent "
                 "phase) + churn rounds (producers build tiny frozen heaps/modules back to back, consumers on other threads compare the value "
                 "with the expected encoding and drop it); evaluations = operations executed (concurrent + sequential; one churn heap = one "
-                "operation); non-trivial = rounds with >= 4 threads that share >= 1 frozen module and perform >= 1 cross-thread drop, state "
-                "rounds with >= 4 threads, churn rounds with >= 3 threads and >= 10000 heaps",
+                "operation) + first-binder rounds (a freshly frozen library holding enum types, record types, typing values, closures "
+                "anonymously in containers; binder threads assign them to top-level names of their own - each a different name - and build "
+                "values/annotations from them, reader threads observe repr/str/.type/type()/dir/json/isinstance/eval_type/error messages; "
+                "every workload alone on a FRESH copy of the library vs 6 concurrent repetitions on further fresh copies: racing, binders "
+                "first, readers first); non-trivial = rounds with >= 4 threads that share >= 1 frozen module and perform >= 1 cross-thread "
+                "drop, state rounds with >= 4 threads, churn rounds with >= 3 threads and >= 10000 heaps, first-binder rounds with >= 3 "
+                "threads and both roles",
         "rounds": st["rounds"],
         "threads_per_round": {str(k): v for k, v in sorted(st["threads"].items())},
         "ops_per_workload_mean": round(st["ops"] / max(1, sum(k * v for k, v in st["threads"].items())), 2),
@@ -832,6 +1087,10 @@ def correspond(ctx):
         "state_rounds": st["state_rounds"],
         "state_ops": st["state_ops"],
         "state_transcript_items": st["state_items"],
+        "first_binder_rounds": st["binder_rounds"],
+        "first_binder_concurrent_repetitions": st["binder_reps"],
+        "first_binder_ops": st["binder_ops"],
+        "first_binder_transcript_items": st["binder_items"],
         "churn_rounds": st["churn_rounds"],
         "churn_heaps_built_checked_dropped_on_other_threads": st["churn_heaps"],
         "churn_styles": st["churn_styles"],
@@ -861,11 +1120,12 @@ def search(ctx, broken):
     try:
         cases, first, _ = make_cases(ctx, 600, 64, 16, 14)
         state, churn = make_extra(ctx, 120, 40, 400000, 20000, 16)
-        cases, state0, churn0 = split_families(cases)
+        cases, state0, churn0, binder0 = split_families(cases)
         state, churn = state0 + state, churn0 + churn
+        binders = binder0 + make_binders(ctx, 200)
     finally:
         ctx.tier = old
-    failures, st = evaluate(ctx, cases, first, coq_sample=8, state_cases=state, churn_cases=churn)
+    failures, st = evaluate(ctx, cases, first, coq_sample=8, state_cases=state, churn_cases=churn, binder_cases=binders)
     return {"failures": failures, "coverage": {"evaluations": st["ops"] * 2, "rounds": st["rounds"]}}
 
 
@@ -897,7 +1157,10 @@ META = {
                   "without holder and every read by a holder hits live memory; nothing leaks at quiescence; all observers of a once-cell see "
                   "the same value under every interleaving of racing initialisers; no step writes frozen memory, frozen reads commute with "
                   "every step and private steps of different threads commute; every thread's observations in any concurrent run equal those "
-                  "of its own operations run alone. Examples show that a drop without matching holder breaks the invariant, and that the ATOMICITY of "
+                  "of its own operations run alone; a lazily filled once-cell is unobservable (per-thread observations = alone, every schedule) "
+                  "when its candidate value does not depend on the initialising thread, and observable (a two-thread schedule, for every "
+                  "state with the cell empty) as soon as two threads would compute different candidates - the condition a frozen enum/record "
+                  "type named after the variable of the first loading thread that binds it would violate. Examples show that a drop without matching holder breaks the invariant, and that the ATOMICITY of "
                   "the decrement is load-bearing: a decrement split into load and store is the atomic drop when the halves are adjacent "
                   "(theorem, all states), but one clone by another thread between them breaks count = holders and a later drop frees the "
                   "chunk under a live holder. "
@@ -906,7 +1169,9 @@ META = {
                   "is only SEARCHED: generated workloads on 2..16 threads sharing frozen modules (loads, calls, reads, hashing, repr/json, "
                   "build/freeze/drop of own modules, handles and modules dropped on other threads, first-use races on lazily initialised "
                   "globals in fresh processes; deep nested comparison / repr / json / recursion / interning / type-id workloads on shared frozen "
-                  "values with the sequential run before and after; producer/consumer churn of tiny frozen heaps that share chunks, each value "
+                  "values with the sequential run before and after; first-binder races on anonymous enum/record/typing values of a freshly frozen "
+                  "library - binders assign them to per-thread top-level names, readers observe repr/.type/isinstance/error messages, every "
+                  "workload alone on a fresh copy of the library vs 6 concurrent repetitions on further fresh copies; producer/consumer churn of tiny frozen heaps that share chunks, each value "
                   "compared with its expected encoding), arena poisoning on, each thread's transcript compared with the same workload run alone; the "
                   "recorded heap-level histories of a sample of rounds are replayed on the Coq model. Absence of a failure in this search is "
                   "not evidence of absence.",
